@@ -238,6 +238,11 @@ Section AGG.
           | Some qs => Some (vnum (quantile_o p qs))
           | None => None end
         else BASE e g
+      | [Raw t1; col; Raw t3] =>
+        (* byWithoutFilterCol for by (): mapFilter((k,v) -> 0, col) keeps no pair *)
+        if String.eqb sep "" && String.eqb t1 "mapFilter((k,v) -> 0, " && String.eqb t3 ")" then
+          match eva agg col g with Some (VMap _) => Some (VMap []) | _ => None end
+        else BASE e g
       | _ => BASE e g
       end
     | Fn name args =>
